@@ -7,10 +7,28 @@ JCOLS = ["id", "id2", "c0", "c1", "s0", "fk_a", "fk_b"]
 JTYPES = ["bigint", "varchar", "bigint", "bigint", "varchar", "bigint", "varchar"]
 CI = {c: i for i, c in enumerate(JCOLS)}
 NAMES = ["ma", "mb", "mc", "md", "me"]
+COLLIDING_PAIRS = [(1, "1k"), (11, "k"), (1, "2k"), (12, "k"), (2, "k"), (1, "k"), (2, "1k"), (21, "k")]
 
 
 def jcol(name):
     return ("col", CI[name])
+
+
+def tdim(gran, col="c1"):
+    """a time dimension over the J schema (NULL where the column is NULL), requested at a granularity"""
+    return ("tdim", gran, CI[col])
+
+
+def dim_col(i, e):
+    """name of the result column of dimension number i"""
+    return "d%d__%s" % (i, e[1]) if e[0] == "tdim" else "d%d" % i
+
+
+def canon_times(rows):
+    """datetime/date cells -> microseconds since 1970 (the model's representation)"""
+    import datetime
+    from harness import dbutil
+    return [tuple(dbutil.canon_val(x)[1] if isinstance(x, (datetime.date, datetime.datetime)) else x for x in r) for r in rows]
 
 
 def jsql(e, q=""):
@@ -45,7 +63,7 @@ def gen_forest(rnd, nmodels=None, allow_m2m=True, null_measures=True):
     for i in range(1, n):
         j = rnd.randrange(i)
         ty = rnd.choice(["m2o", "m2o", "m2o", "o2o"])
-        comp = rnd.random() < 0.2
+        comp = rnd.random() < 0.3
         if comp:
             models[j]["composite"] = True
         # orientation: sometimes the later model is the parent (so that chains run both ways)
@@ -67,19 +85,27 @@ def gen_forest(rnd, nmodels=None, allow_m2m=True, null_measures=True):
     # rows
     for i, m in enumerate(models):
         k = rnd.choice([0, 1, 2, 3, 4, 6]) if i else rnd.choice([1, 2, 3, 4, 6])
-        for r in range(k):
+        # composite keys are drawn from pairs whose plain concatenation collides ((1,'1k') ~ (11,'k'), (1,'2k') ~ (12,'k')), so that
+        # a key encoding without a separator cannot go unnoticed
+        if m["composite"]:
+            k = max(k, rnd.choice([2, 4, 4, 6]))
+            off = rnd.choice([0, 2, 4, 6])
+            pairs = (COLLIDING_PAIRS[off:] + COLLIDING_PAIRS[:off])[:k]          # colliding partners are adjacent in the pool
+        else:
+            pairs = [(r + 1, "k%d" % (r + 1)) for r in range(k)]
+        for r in range(len(pairs)):
             c0 = rnd.choice([None, 0, 1, 2, 5, -3, 10]) if null_measures else rnd.choice([0, 1, 2, 5, -3, 10])
-            m["rows"].append([r + 1, "k%d" % (r + 1), c0, rnd.choice([None, 0, 1, 2]), rnd.choice([None, "a", "a", "b", "c"]), None, None])
+            m["rows"].append([pairs[r][0], pairs[r][1], c0, rnd.choice([None, 0, 1, 2]), rnd.choice([None, "a", "a", "b", "c"]), None, None])
     for (c, p, ty, comp) in links:
         prow = models[p]["rows"]
-        pool = [r[0] for r in prow]
+        pool = [(r[0], r[1]) for r in prow]
         used = set()
         for r in models[c]["rows"]:
             x = rnd.random()
             if x < 0.12 or not pool:
                 fk = None
             elif x < 0.2:
-                fk = 99                       # dangling
+                fk = (99, "k99")              # dangling
             else:
                 fk = rnd.choice(pool)
                 if ty == "o2o":
@@ -87,8 +113,8 @@ def gen_forest(rnd, nmodels=None, allow_m2m=True, null_measures=True):
                         fk = None
                     else:
                         used.add(fk)
-            r[CI["fk_a"]] = fk
-            r[CI["fk_b"]] = None if fk is None else ("k%d" % fk if rnd.random() < 0.9 else "zz")
+            r[CI["fk_a"]] = None if fk is None else fk[0]
+            r[CI["fk_b"]] = None if fk is None else (fk[1] if rnd.random() < 0.9 else "zz")
     # declarations: on the child (many_to_one / one_to_one with the fk there is not expressible for o2o on the child side in this API,
     # so o2o is always declared on the parent) or on the parent (one_to_many / one_to_one)
     for (c, p, ty, comp) in links:
@@ -135,7 +161,8 @@ def real_layer(f, metrics_by_model, dims_by_model, extra_model_kw=None):
             L.conn.executemany("insert into %s values (?,?,?,?,?,?,?)" % m["name"], m["rows"])
     for m in f["models"]:
         rels = [Relationship(**r) for r in m["rels"]]
-        dims = [Dimension(name=dn, type=("categorical" if e == jcol("s0") else "numeric"), sql=jsql(e)) for dn, e in dims_by_model.get(m["name"], [])]
+        dims = [(Dimension(name=dn, type="time", granularity="day", sql="(TIMESTAMP '2024-01-15 00:00:00' + %s * INTERVAL 20 DAY)" % JCOLS[e[2]]) if e[0] == "tdim" else
+                 Dimension(name=dn, type=("categorical" if e == jcol("s0") else "numeric"), sql=jsql(e))) for dn, e in dims_by_model.get(m["name"], [])]
         mets = [Metric(name=mn, agg=a, sql=(jsql(e) if e else None), filters=[jsql(x, "{model}.") for x in fl] or None) for mn, a, e, fl in metrics_by_model.get(m["name"], [])]
         kw = dict((extra_model_kw or {}).get(m["name"], {}))
         L.add_model(Model(name=m["name"], table=m["name"], primary_key=(["id", "id2"] if m["composite"] else "id"), relationships=rels, dimensions=dims, metrics=mets, **kw))
